@@ -94,6 +94,7 @@ func c14Vars(log *[]string, jfName string) jet.VarMap {
 	vars.Set("obj", c14Methods{rec: r, Tag: "o"})
 	vars.Set("pobj", &c14Methods{rec: r, Tag: "p"})
 	vars["nilv"] = reflect.Value{}
+	vars.Set("mm", map[string]interface{}{"k": "v"})
 	vars.Set("sv", "strvar")
 	vars.Set("iv", 7)
 	return vars
@@ -106,6 +107,9 @@ type c14Arg struct {
 	S   string `json:"s,omitempty"`
 	I   int    `json:"i,omitempty"`
 	IsI bool   `json:"is_i,omitempty"`
+	// NoVal: an expression without a value (nil, an absent map entry, an invalid variable); only as the
+	// base of a chain whose first stage is the jet.Func, which must see it as an argument like any other
+	NoVal bool `json:"noval,omitempty"`
 }
 
 type c14Stage struct {
@@ -196,6 +200,22 @@ func genC14(t *rapid.T) c14Case {
 		}
 		c.Stages = append(c.Stages, st)
 	}
+	if rapid.IntRange(0, 7).Draw(t, "novalBase") == 0 {
+		c.Base = c14Arg{Src: rapid.SampledFrom([]string{"nil", "mm.missing", "nilv", `mm["absent"]`}).Draw(t, "noval"), NoVal: true}
+		st := &c.Stages[0]
+		st.Fn = 5 // jf
+		if st.P > 1 {
+			st.P = 1
+		}
+		st.Args = []c14Arg{c14GenArg(t, 'S', "nvS"), c14GenArg(t, 'I', "nvI")}
+		if st.Form == "colon" || st.Form == "paren" {
+			if st.P != 0 {
+				st.Form = "slot-paren"
+			} else if rapid.Bool().Draw(t, "nvFewer") {
+				st.Args = st.Args[:rapid.IntRange(0, 1).Draw(t, "nvArgs")] // a jet.Func takes any number of arguments
+			}
+		}
+	}
 	c.Prefix = nested > 0 && rapid.IntRange(0, 2).Draw(t, "prefix") == 0
 	c.Expr = c.expr(false, "")
 	c.Plain = c.expr(true, "")
@@ -271,7 +291,7 @@ func (c c14Case) apply() (string, []string) {
 	r := c14Rec{&log}
 	m := c14Methods{rec: r}
 	cur := c.Base.S
-	for _, st := range c.Stages {
+	for si, st := range c.Stages {
 		var args []interface{}
 		k := 0
 		for j := 0; j < len(st.Args)+1; j++ {
@@ -311,7 +331,11 @@ func (c c14Case) apply() (string, []string) {
 			k := 0
 			for j := 0; j < len(st.Args)+1; j++ {
 				if j == st.P {
-					raw = append(raw, cur)
+					if si == 0 && c.Base.NoVal {
+						raw = append(raw, nil)
+					} else {
+						raw = append(raw, cur)
+					}
 					continue
 				}
 				a := st.Args[k]
@@ -377,6 +401,10 @@ func judgeC14(c c14Case) (v core.Verdict) {
 	}
 	if c.Prefix {
 		v.Label("prefix-form")
+	}
+	if c.Base.NoVal {
+		v.Label("value-less-base:"+c.Base.Src, "value-less-base-form:"+c.Stages[0].Form)
+		hasJF = false // a reflected function cannot take a value-less argument
 	}
 	v.NonTrivial = len(c.Stages) >= 2 || slotPos || convert
 	for _, expr := range []string{c.expr(false, ""), c.expr(true, "")} {
